@@ -441,6 +441,28 @@ func (s *session) subVec(om obsMask, m proto.Message) []int {
 	return res
 }
 
+const rejectedGrace = 8 * time.Millisecond
+
+// readAvailable reads, without waiting, what the stream has delivered so far.
+func (s *session) readAvailable(ps *pullStream, sn *obsStream) {
+	for !ps.done {
+		select {
+		case ev := <-ps.ch:
+			if ev.err != nil {
+				ps.done = true
+				ps.ended, _ = errCode(ev.err)
+				sn.Ended = ps.ended
+				return
+			}
+			cs := s.changesOf(ps, ev.msg)
+			sn.Msgs = append(sn.Msgs, cs...)
+			ps.nread += len(cs)
+		default:
+			return
+		}
+	}
+}
+
 // projVec is Stack!Project on the harness side (used only to decide what to wait for).
 func projVec(v []int, om obsMask, sub []int) []int {
 	if om.Nil {
@@ -461,6 +483,11 @@ func projVec(v []int, om obsMask, sub []int) []int {
 // deliver: after a successful Update every open stream must show the response as seen through the stream's read
 // mask, if that differs from what the stream showed before; the harness reads each stream until it does.
 func (s *session) deliver(o *obs, respMsg proto.Message, err error) {
+	if err != nil && len(s.streams) > 0 {
+		// a publication made by the handler before it answered has had several goroutine hand-overs to travel;
+		// give it a moment (no verdict depends on this being long enough: it can only under-report)
+		time.Sleep(rejectedGrace)
+	}
 	for _, ps := range s.streams {
 		sn := s.snapshot(ps)
 		sn.Rsub = s.subVec(ps.mask, respMsg)
@@ -474,6 +501,9 @@ func (s *session) deliver(o *obs, respMsg proto.Message, err error) {
 			ps.pending = 0
 		case err == nil:
 			ps.pending++
+		default:
+			// rejected: a rejected Update must not appear on the streams; read what is there (see deliver's caller)
+			s.readAvailable(ps, &sn)
 		}
 		o.Streams = append(o.Streams, sn)
 	}
@@ -661,6 +691,10 @@ func (s *session) run(h genHist) {
 			s.streams = append(s.streams, ps)
 			o.Streams = append(o.Streams, sn)
 			o.Post = s.fullGet()
+		case "Nudge":
+			if !s.nudge(&o, name, preMsg) {
+				continue
+			}
 		case "PullOnce":
 			if !s.pullOnce(&o, op, name, preMsg) {
 				continue
